@@ -4,7 +4,7 @@ CONSTANTS
   MaxVal = 9
   NG = 2
   NSlots = 2
-  MaxOps = 1
+  MaxOps = 2
   Modes = {"locked", "dcl"}
   Forced = FALSE
   OpSet <- OpsAll
